@@ -213,7 +213,8 @@ def sqlite_comps(cal, big=False):
     series = cal.series_samp
     if big:
         rng = np.random.default_rng(5)
-        series = rng.random((len(cal.params_samp), cal.ensemble_size, 26000, cal.D))  # > 2 MB even after gzip
+        # > 2 MB even after gzip; "huge": > 16 MiB (4096 database pages of 4 kB are freed when such a row is deleted)
+        series = rng.random((len(cal.params_samp), cal.ensemble_size, 26000 if big is True else 140000, cal.D))
     return [cal.param_grid.parameters_bounds, cal.param_grid.parameters_precision, cal.real_data, cal.ensemble_size, cal.N, cal.D, cal.convergence_precision,
             cal.verbose, cal.saving_folder, cal.random_state, cal.random_generator.bit_generator.state, cal.model.__name__, cal.scheduler, cal.loss_function,
             cal.current_batch_index, cal.params_samp, cal.losses_samp, series, cal.batch_num_samp, cal.method_samp]
@@ -239,7 +240,8 @@ def sqlite_cell(cell):
     res = {"evaluations": 0, "nontrivial": 0, "states": 0, "transitions": 0, "traces": 0, "stats": {}, "outcomes": set(), "violations": [], "samples": []}
     cfg, big = cell["cfg"], cell.get("big", False)
     old_cal = make_run(cfg, cell["old_batches"])
-    new_cal = make_run(dict(cfg, seed=cfg.get("seed", 0) + (7 if cell.get("other_run") else 0)), cell["new_batches"])
+    # other_run: a different calibration in the same file (other seed); other_setup: SAME model name, seed and folder, different set-up
+    new_cal = make_run(dict(cfg, seed=cfg.get("seed", 0) + (7 if cell.get("other_run") else 0), **cell.get("other_setup", {})), cell["new_batches"])
     old_c, new_c = sqlite_comps(old_cal, big), sqlite_comps(new_cal, big)
     old_k, new_k = canon(old_c), canon(new_c)
 
@@ -275,11 +277,11 @@ def sqlite_cell(cell):
             with quiet():
                 got = canon(list(sq.load_calibrator_state(w)))
             if got != new_k:
-                viol("sqlite:complete-save-not-new", "a complete save on top of a previous checkpoint does not load as the new state", {"mode": "sqlite", "cfg": cfg, "old_batches": cell["old_batches"], "new_batches": cell["new_batches"], "big": big, "other_run": cell.get("other_run", False), "k": -1})
+                viol("sqlite:complete-save-not-new", "a complete save on top of a previous checkpoint does not load as the new state", {"mode": "sqlite", "cfg": cfg, "old_batches": cell["old_batches"], "new_batches": cell["new_batches"], "big": big, "other_run": cell.get("other_run", False), "other_setup": cell.get("other_setup", {}), "k": -1})
             else:
                 res["outcomes"].add(("sqlite-complete", "new"))
         except Exception as e:  # noqa: BLE001
-            viol("sqlite:complete-save-not-loadable", f"{type(e).__name__}: {e}", {"mode": "sqlite", "cfg": cfg, "old_batches": cell["old_batches"], "new_batches": cell["new_batches"], "big": big, "other_run": cell.get("other_run", False), "k": -1})
+            viol("sqlite:complete-save-not-loadable", f"{type(e).__name__}: {e}", {"mode": "sqlite", "cfg": cfg, "old_batches": cell["old_batches"], "new_batches": cell["new_batches"], "big": big, "other_run": cell.get("other_run", False), "other_setup": cell.get("other_setup", {}), "k": -1})
         shutil.rmtree(w, ignore_errors=True)
         for k in range(total):
             w = root / f"inj{k}"
@@ -316,7 +318,7 @@ def sqlite_cell(cell):
             res["transitions"] += 1
             res["nontrivial"] += 1
             where = f"{lines[k][0]}:{lines[k][1]}" if k < len(lines) else "?"
-            case = {"mode": "sqlite", "cfg": cfg, "old_batches": cell["old_batches"], "new_batches": cell["new_batches"], "big": big, "other_run": cell.get("other_run", False), "k": k}
+            case = {"mode": "sqlite", "cfg": cfg, "old_batches": cell["old_batches"], "new_batches": cell["new_batches"], "big": big, "other_run": cell.get("other_run", False), "other_setup": cell.get("other_setup", {}), "k": k}
             # after a FAILED save: the previous checkpoint is still loadable and equals the old state (new if the fault came after the commit)
             try:
                 with quiet():
@@ -427,7 +429,7 @@ def replay_case(case):
     if case["mode"] == "json":
         return json_replay(case)
     if case["mode"] == "sqlite":
-        r = sqlite_cell({"cfg": case["cfg"], "old_batches": case["old_batches"], "new_batches": case["new_batches"], "big": case.get("big", False), "other_run": case.get("other_run", False)})
+        r = sqlite_cell({"cfg": case["cfg"], "old_batches": case["old_batches"], "new_batches": case["new_batches"], "big": case.get("big", False), "other_run": case.get("other_run", False), "other_setup": case.get("other_setup", {})})
     else:
         r = json_exception_cell({"cfg": case["cfg"], "prev": case["prev"], "new_batches": case["new_batches"]})
     return [{"key": v["key"], "what": v["what"]} for v in r["violations"]]
@@ -450,10 +452,12 @@ def main(ctx):
             cells.append({"kind": "json-exception", "cfg": cfg, "prev": prev, "new_batches": 2})
         cells.append({"kind": "sqlite", "cfg": cfg, "old_batches": 1, "new_batches": 2})
         cells.append({"kind": "sqlite", "cfg": cfg, "old_batches": 2, "new_batches": 2, "other_run": True})
+        cells.append({"kind": "sqlite", "cfg": cfg, "old_batches": 3, "new_batches": 1, "other_setup": {"ensemble": 3, "precision": 0.1, "T": 11, "upper": 2.0}})
     cells.append({"kind": "sqlite", "cfg": cfgs[0], "old_batches": 1, "new_batches": 2, "big": True})
+    cells.append({"kind": "sqlite", "cfg": cfgs[0], "old_batches": 2, "new_batches": 3, "big": "huge"})
     cells.sort(key=lambda c: 0 if c["kind"] == "sqlite" and c.get("big") else 1)
     ctx.bounds = {"configurations": 2, "previous_checkpoint_kinds": ["none", "same-1", "same-2", "other-more", "other-same"], "json": "every operation boundary and byte cut of the recorded write log",
-                  "sqlite": "exception and crash snapshot at every traced line of save_calibrator_state and its adapters; small states and one > 2 MB state"}
+                  "sqlite": "exception and crash snapshot at every traced line of save_calibrator_state and its adapters; small states, one > 2 MB state and one > 16 MiB state; a different calibration with the same model name, seed and folder on top"}
     ctx.rule = "evaluations = crash states / fault positions restored and classified; non-trivial = crash states that restore silently as a hybrid (JSON) / fault positions (SQLite)"
     ctx.assumptions = ["process-death crash model: completed writes persist in order; power-loss reordering and SQLite page atomicity are not modelled",
                        "'new' is what restoring the completely written folder gives (its correctness is C04's subject)"]
